@@ -318,6 +318,14 @@ pub fn check_doc(d: &DocCase) -> Result<(usize, bool), String> {
     check_diag_positions(text, &v.diagnostics, lone_cr)?;
     let vd = imp::minus(&v.diagnostics, &p.diagnostics);
     check_validation_diag_ranges(vtree, &vd)?;
+    // every validation diagnostic (and its related information) sits on the node it names:
+    // compare with the reference validator's expectation for this single-file project
+    if !lone_cr {
+        let keys = crate::refval::keys_of(std::iter::once(&d.expected));
+        if let Ok(r) = crate::refval::validate_ref(&d.expected, &keys) {
+            n += cmp::compare_diags(&r.diags, &vd, vtree, &|_| true).map_err(|e| format!("validation diagnostics: {e}"))?;
+        }
+    }
     // interesting: some exact range preceded on its line by a multi-byte char or on a later line
     let mut interesting = false;
     for (_, _, role, r) in astvisit::all_ranges(&d.expected) {
@@ -407,7 +415,19 @@ impl Prop for C04 {
                 Err(e) => Err(Fail::new(e, bytes_case(bytes, json!({"text": d.laid.text})))),
             }
         } else {
-            let text = match s.below(4) {
+            let nfam = if s.chance(1, 1500) { 6 } else { 5 };
+            let text = match s.below(nfam) {
+                4 => {
+                    // byte order mark / zero-width characters in front of a well-formed document
+                    let d = doccase::gen_doc(&mut s, &GenCfg::default(), &lc)?;
+                    let pre = *s.pick(&["\u{FEFF}", "\u{FEFF} ", "\u{FEFF}  ", "\u{FEFF}\n", "\u{200B}"]);
+                    format!("{pre}{}", d.laid.text)
+                }
+                5 => {
+                    // a single line longer than 65535 bytes with multi-byte text, then a small document
+                    let n = 33_000 + s.below(2000);
+                    format!("/* {} */ package p; interface I {{ void f(in String key); }} ", "\u{e9}".repeat(n))
+                }
                 0 => mutate::char_soup(&mut s, 40),
                 1 => {
                     let toks = mutate::token_soup(&mut s, 30);
